@@ -72,6 +72,9 @@ let canon_pres (p : pres) : string =
   | PPos n -> "pos:" ^ string_of_int (int_of_nat n)
   | PSize n -> "size:" ^ string_of_int (int_of_nat n)
 
+(* digests are < 2^61 and fit OCaml's 63-bit int *)
+let n_to_string (x : n) : string = string_of_int (int_of_n x)
+
 let b = bytes_of_hex
 let zi s = z_of_int (int_of_string s)
 let ni s = nat_of_int (int_of_string s)
